@@ -188,6 +188,14 @@ def is_dead_position(src, lineno):
 
 
 CURATED = [
+    ("genexp-argument-with-keywords", "w = ['bb', 'a', 'ccc']\nprint(sorted((x for x in w), key=len), max((len(x) for x in w), default=0), sum((1 for _ in w), 10))\n"),
+    # one class per shape: the names a class body's lambdas read as globals are collected per class
+    ("class-body-nested-lambdas-read-global", "x = 'G'\nclass K1:\n    x = 'M'\n    g = (lambda: (lambda: x)())()\nclass K2:\n    x = 'M'\n    a = lambda self, w: (lambda h: (w, h, x))\n"
+     "class K3:\n    x = 'M'\n    j = (lambda: (lambda: (lambda: x)())())()\nclass K4:\n    x = 'M'\n    m = lambda self: ''.join(map(lambda c: c + x, 'ab'))\n"
+     "class K5:\n    x = 'M'\n    i = [(lambda: (lambda: x)())() for _ in [0]]\nprint(K1.g, K2().a(1)(2), K3.j, K4().m(), K5.i, K1.x)\n"),
+    ("interrupts-below-nested-ifs", "def f(n):\n    out = []\n    for i in range(n):\n        if i % 2:\n            if i == 3:\n                continue\n            out.append(('odd', i))\n        else:\n            if i == 4:\n                break\n            out.append(('even', i))\n        out.append(('end', i))\n    else:\n        out.append('no-break')\n    return out\nprint(f(3), f(7))\n"),
+    ("interrupt-in-loop-else", "def f():\n    out = []\n    for i in range(3):\n        for j in range(2):\n            out.append((i, j))\n        else:\n            if i == 1:\n                continue\n            out.append(('else', i))\n        out.append(('after', i))\n    return out\nprint(f())\n"),
+    ("bare-fstring-statement", "log = []\nf'{log.append(1)}{log.append(2)!r:>{len(log)}}'\ndef g():\n    f'{log.append(3)}'\ng()\nprint(log)\n"),
     ("empty", ""),
     ("only-pass", "pass\n"),
     ("docstring", '"""doc"""\nx = 1\n'),
@@ -282,9 +290,20 @@ def _walrus_in_for_iter(tree):
     return False
 
 
+def _fstring_spec_control_char(tree):
+    """a NUL, a carriage return or a lone surrogate in the literal text of an f-string format spec"""
+    for n in ast.walk(tree):
+        if isinstance(n, ast.FormattedValue) and n.format_spec is not None:
+            for m in ast.walk(n.format_spec):
+                if isinstance(m, ast.Constant) and isinstance(m.value, str) and ("\x00" in m.value or "\r" in m.value or any(0xD800 <= ord(ch) <= 0xDFFF for ch in m.value)):
+                    return True
+    return False
+
+
 SHAPES = {
     "walrus_in_while_test": _walrus_in_while_test,
     "walrus_in_for_iter": _walrus_in_for_iter,
+    "fstring_spec_control_char": _fstring_spec_control_char,
 }
 
 
@@ -292,13 +311,15 @@ def known_shapes():
     return [k for k in load_known_findings() if k.get("status") == "open"]
 
 
-def match_known(known, src, verdict, pid=None):
+def match_known(known, src, verdict, pid=None, cfg=None):
     try:
         tree = ast.parse(src)
     except SyntaxError:
         return None
     for k in known:
         if pid and pid not in k.get("properties", []):
+            continue
+        if k.get("only_unparser") and (cfg is None or cfg[0] != k["only_unparser"]):
             continue
         sh = SHAPES.get(k.get("shape"))
         if sh and sh(tree) and verdict.startswith(k.get("signature", "fail")):
